@@ -555,7 +555,14 @@ pub struct TpCase {
     pub client_side: bool,
     pub edit: Option<TpEdit>,
     pub lat_us: [u32; 2],
+    /// 0 (only without Retry): the server uses zero-length connection IDs, so the parameter that echoes
+    /// its source connection ID is present but empty
     pub server_cid_len: u8,
+    #[serde(default = "eight")]
+    pub client_cid_len: u8,
+}
+fn eight() -> u8 {
+    8
 }
 
 pub fn arb_tp_case() -> impl Strategy<Value = TpCase> {
@@ -571,15 +578,15 @@ pub fn arb_tp_case() -> impl Strategy<Value = TpCase> {
             1 => Just(TpOp::Lengthen { byte: b2 }),
         ]
     });
-    (any::<u64>(), any::<bool>(), prop::bool::weighted(0.25), prop::option::weighted(0.93, (id, op)), (500u32..20_000, 500u32..20_000), prop_oneof![3 => Just(8u8), 1 => 4u8..=20]).prop_map(
-        |(seed, retry, client_side, edit, (a, b), server_cid_len)| {
+    (any::<u64>(), any::<bool>(), prop::bool::weighted(0.25), prop::option::weighted(0.93, (id, op)), (500u32..20_000, 500u32..20_000), (prop_oneof![3 => Just(8u8), 1 => 4u8..=20, 1 => Just(0u8)], prop_oneof![4 => Just(8u8), 1 => Just(0u8)])).prop_map(
+        |(seed, retry, client_side, edit, (a, b), (server_cid_len, client_cid_len))| {
             let edit = edit.map(|(id, op)| TpEdit { id: if client_side { TP_ISCID } else { id }, op });
             // a client may not send the two server-only parameters at all: only its own parameter is edited
             let edit = match edit {
                 Some(TpEdit { op: TpOp::CopyFrom { .. } | TpOp::Swap { .. }, .. }) if client_side => Some(TpEdit { id: TP_ISCID, op: TpOp::Flip { byte: 0, bit: 0 } }),
                 e => e,
             };
-            TpCase { seed, retry, client_side, edit, lat_us: [a, b], server_cid_len }
+            TpCase { seed, retry, client_side, edit, lat_us: [a, b], server_cid_len, client_cid_len }
         },
     )
 }
@@ -589,7 +596,8 @@ pub fn case_tp(c: &TpCase) -> CaseOut {
     net.seed = c.seed;
     net.latency_us = c.lat_us;
     net.srv.retry = c.retry;
-    net.server_ep.cid_len = c.server_cid_len.clamp(4, 20);
+    net.server_ep.cid_len = if c.server_cid_len == 0 && !c.retry { 0 } else { c.server_cid_len.clamp(4, 20) };
+    net.client_ep.cid_len = if c.client_cid_len == 0 { 0 } else { 8 };
     net.client_tc.mtud = None;
     net.server_tc.mtud = None;
     let mut w = World::new(net);
